@@ -350,6 +350,32 @@ def random_case(draw):
     return {"graph": g, "request": req, "fn": fn, "params": params, "insertion": list(draw(st.permutations(list(range(n)))))}
 
 
+def twin_chain_cases(tier):
+    """Two (or three) separate linear chains whose FUSED names coincide under the default renamer although all keys differ:
+    x <- c <- b is renamed 'x-c-b', and so is 'x-1' <- 'c-b' (key_split drops the '-1').  Both chain ends are requested; every
+    fusing function, with renaming on."""
+    names = [["x", "c", "b"], ["x-1", "c-b"], ["x-2", "c-b-3"]]
+    for nchains in (2, 3):
+        shape, ks, tops = [], [], []
+        for ch in names[:nchains]:
+            base = len(shape)
+            for j, k in enumerate(ch):
+                shape.append({"kind": "task", "deps": [] if j == 0 else [base + j - 1]})
+                ks.append(k)
+            tops.append(len(shape) - 1)
+        for style in ("legacy",):
+            g = dags.dag_spec(shape, style, "str")
+            for node, k in zip(g["nodes"], ks):
+                node["k"] = k
+            for req in ([tops[0], tops[1]], list(reversed(tops)), tops):
+                for fn, params in (("fuse_linear", {"rename_keys": True}), ("fuse_linear", {"rename_keys": True, "pass_keys": False}), ("fuse", {"ave_width": 1}), ("fuse", {"ave_width": "inf"})):
+                    for ins in (None, "reversed"):
+                        c = {"graph": g, "request": req, "fn": fn, "params": dict(params)}
+                        if ins:
+                            c["insertion"] = ins
+                        yield c
+
+
 SUBCHECKS = [
     Sub(
         "enum",
@@ -362,6 +388,8 @@ SUBCHECKS = [
         budget_s={"quick": 90, "thorough": 1500},
         doc="all small DAGs x requested subsets x function x parameter grid",
     ),
+    Sub("twin-chains", check, kind="enum", cases=twin_chain_cases, nontrivial=lambda c: True, classes=classes, exhaustive=True,
+        doc="2-3 disjoint linear chains with pairwise different keys whose default fused names coincide ('x-c-b'): fuse_linear / fuse with renaming (legacy graphs), request orders, insertion orders"),
     Sub(
         "random",
         check,
